@@ -28,11 +28,22 @@ const TAG_LABEL: u64 = 0x0a;
 /// unspecified_parameters, variant, inheritance, inlined_subroutine, catch_block, enumerator,
 /// friend, template_type_parameter, template_value_parameter, thrown_type, try_block,
 /// variant_part, call_site, call_site_parameter.
+/// Further stand-alone entities that are no namespaces (kept only when required or referenced,
+/// but keeping their member-like children when kept): array_type, class_type, enumeration_type,
+/// subroutine_type, union_type, common_block, module, interface_type.
+pub(super) const MORE_STANDALONE: [u64; 8] = [0x01, 0x02, 0x04, 0x15, 0x17, 0x1a, 0x1e, 0x38];
 pub(super) const MORE_MEMBER_LIKE: [u64; 14] = [0x18, 0x19, 0x1c, 0x1d, 0x25, 0x28, 0x2a, 0x2f, 0x30, 0x31, 0x32, 0x33, 0x48, 0x49];
 
 /// (tag, is_declaration) for class `c` at entry number `k` (rotates through the class's tags
 /// so that all ten tags of the property's quantifier occur).
 pub(super) fn tag_for(c: Class, k: usize, rot: usize) -> (u64, bool) {
+    // rot >= 200 selects one of the further stand-alone container tags for every class S entry
+    if rot >= 200 {
+        if c == Class::S {
+            return (MORE_STANDALONE[(rot - 200) % MORE_STANDALONE.len()], false);
+        }
+        return tag_for(c, k, rot - 200);
+    }
     // rot >= 100 selects one of the further member-like tags for every class M entry
     if rot >= 100 {
         if c == Class::M {
@@ -755,6 +766,7 @@ fn sub_named_rots(name: &str, tier: Tier, n: usize, alphabet: &'static [Class], 
         shapes.len(),
         alphabet,
         match &rots {
+            Some(r) if r[0] >= 200 => format!("x every class S entry carrying, in turn, each of the {} further stand-alone container tags {:x?}", r.len(), MORE_STANDALONE),
             Some(r) => format!("x every class M entry carrying, in turn, each of the {} further member-like tags {:x?}", r.len(), MORE_MEMBER_LIKE),
             None => (if full_rot { "x all 5 rotations of the tag lists" } else { "rotation derived from the other dimensions" }).to_string(),
         },
@@ -894,10 +906,13 @@ pub fn def(tier: Tier) -> CheckDef {
             subs.push(sub_named("filter-more-carriers-n1", tier, 1, &ALPHA3, &MORE_CARRIERS, vec![c3, c4, c5], 1, &BOTH, None));
             subs.push(sub_named("filter-more-carriers-n2", tier, 2, &ALPHA3, &MORE_CARRIERS, vec![c3, c4, c5], 2, &BOTH, None));
             subs.push(sub_named_rots("filter-more-member-like-tags-n2", tier, 2, &ALPHA3, &TAG_CARRIERS, vec![c4, c5], 1, &BOTH, None, Some((100..114).collect())));
+            subs.push(sub_named_rots("filter-more-container-tags-n2", tier, 2, &ALPHA3, &TAG_CARRIERS, vec![c4, c5], 1, &BOTH, None, Some((200..208).collect())));
         }
         Tier::Thorough => {
             subs.push(sub_named_rots("filter-more-member-like-tags-n2", tier, 2, &ALPHA3, &TAG_CARRIERS, vec![c3, c4, c5], 1, &BOTH, None, Some((100..114).collect())));
             subs.push(sub_named_rots("filter-more-member-like-tags-n3", tier, 3, &ALPHA3, &TAG_CARRIERS, vec![c4], 1, &ONE, None, Some((100..114).collect())));
+            subs.push(sub_named_rots("filter-more-container-tags-n2", tier, 2, &ALPHA3, &TAG_CARRIERS, vec![c3, c4, c5], 1, &BOTH, None, Some((200..208).collect())));
+            subs.push(sub_named_rots("filter-more-container-tags-n3", tier, 3, &ALPHA3, &TAG_CARRIERS, vec![c4], 1, &ONE, None, Some((200..208).collect())));
             subs.push(sub_n(tier, 1, &ALPHA4, &CARRIERS, vec![c3, c4, c5], 1, &BOTH, None));
             subs.push(sub_n(tier, 2, &ALPHA4, &CARRIERS, vec![c3, c4, c5], 2, &BOTH, None));
             subs.push(sub_n(tier, 3, &ALPHA4, &CARRIERS, vec![c3, c4, c5], 3, &BOTH, None));
